@@ -165,13 +165,52 @@ def lookup(fnmap, table_name):
     return None
 
 
+def _missing_names(res, gen):
+    """names the front end could not resolve inside an extracted item: [(relpath, parent_anchor, name)]"""
+    out = []
+    for d in res['diags']:
+        if d.get('level') != 'error':
+            continue
+        m = re.match(r'cannot find (?:value|function|type|struct, variant or union type|macro) `([A-Za-z_][A-Za-z0-9_]*)`', d.get('message', ''))
+        if not m:
+            continue
+        for sp in d.get('spans', []):
+            if not sp.get('is_primary'):
+                continue
+            ln = sp.get('line_start', 0)
+            if 0 < ln <= len(gen.origin) and gen.origin[ln - 1].get('kind') == 'src':
+                o = gen.origin[ln - 1]
+                out.append((o['file'], o['anchor'], m.group(1)))
+    return out
+
+
 def run_unit(repo, name, workdir):
     upath = os.path.join(ROOT, 'contracts', name + '.vu')
-    gen = unit.generate(repo, upath, gens.GENERATORS)
-    out = os.path.join(workdir, name + '.rs')
-    with open(out, 'w') as f:
-        f.write(gen.text())
-    res = verus.run_verus(out)
+    auto = []
+    for _round in range(4):
+        gen = unit.generate(repo, upath, gens.GENERATORS, auto=auto)
+        out = os.path.join(workdir, name + '.rs')
+        with open(out, 'w') as f:
+            f.write(gen.text())
+        res = verus.run_verus(out)
+        # T9: a name of the same source file that an extracted item refers to (a new const or private helper) is sliced too
+        added = False
+        for (rel, parent, nm) in _missing_names(res, gen):
+            if rel.startswith('dep:'):
+                continue
+            try:
+                srctext = open(os.path.join(repo, rel)).read()
+            except OSError:
+                continue
+            for kind in ('const', 'static', 'fn', 'struct', 'enum', 'type'):
+                anchor = '%s %s' % (kind, nm)
+                if re.search(r'^[ \t]*(?:pub(?:\([a-z]+\))?\s+)?(?:const\s+|async\s+)*%s\s+%s\b' % (kind, re.escape(nm)), srctext, re.M) and (rel, parent, anchor) not in auto:
+                    auto.append((rel, parent, anchor))
+                    added = True
+                    break
+        if not added:
+            break
+    gen.auto_sliced = [a[2] for a in auto]
     return gen, res
 
 
@@ -330,6 +369,12 @@ def check_property(prop, reg, args, seed):
                            'repo_loc': ('%s:%s' % (stmt['origin']['file'], stmt['origin']['line'])) if stmt else None,
                            'clause': clause,
                            'rendered': e.get('rendered', ''), 'unit': u, 'function': key}
+                    auto_names = [a.split()[-1] for a in getattr(gen, 'auto_sliced', []) if a.split()[0] == 'fn']   # consts / types are fully defined by their text
+                    if item and auto_names:
+                        body = '\n'.join(gen.lines[item['gen_lines'][0] - 1:item['gen_lines'][1]])
+                        used = [n for n in auto_names if re.search(r'\b%s\b' % re.escape(n), body)]
+                        if used or item.get('auto_sliced'):
+                            rec['needs_witness'] = 'the function uses item(s) %s that are new in the source file and were sliced without a contract (T9)' % ', '.join(used or auto_names)
                     if item and any(l['fn'] == fn_short for l in item.get('lost_annotations', [])):
                         rec['needs_witness'] = 'annotation anchor lost in %s: %s' % (fn_short, '; '.join(l['what'] for l in item['lost_annotations'] if l['fn'] == fn_short))
                     kf = next((k for k in known if k['obligation'] == oid and (k['at'] == '*' or k['at'] == at or (k['at'].endswith('...') and at.startswith(k['at'][:-3])))), None)
